@@ -41,6 +41,10 @@ def file_base_ok(w):
 ALL_POS = ("get", "create", "update", "route", "rpc", "file")
 
 
+def coll(w):
+    return w + "s"
+
+
 def build_safe_api(w, include=ALL_POS):
     """API-A: the word in every position of the property that is expected to work"""
     fname = f"acme/lib/v1/{w}.proto" if (file_base_ok(w) and "file" in include) else "acme/lib/v1/lib.proto"
@@ -56,7 +60,8 @@ def build_safe_api(w, include=ALL_POS):
     r = f.msg("RouteRequest"); r.field(w, "string", 1)
     s = f.service("Library")
     if "get" in include:
-        s.method("GetThing", g, thing, http=("get", "/v1/{%s=things/*}" % w), sigs=[w])
+        # the collection id CONTAINS the word (`{license=licenses/*}`): renaming the variable must not touch the literal segment
+        s.method("GetThing", g, thing, http=("get", "/v1/{%s=%s/*}" % (w, coll(w))), sigs=[w])
     if "create" in include:
         s.method("CreateThing", c, thing, http=("post", "/v1/{parent=shelves/*}/things"), body=w, sigs=[f"parent,{w}"])
     if "update" in include:
@@ -143,7 +148,7 @@ def check_grpc_calls(ctx, w, kind, sess, calls, payload, codec):
             ctx.fail(f"wire:{c['tag']}", f"word {w!r} as {c['tag']} ({kind}): server decoded {got}, caller meant {want}", pl)
         md = dict(srv[0]["metadata"])
         if c["tag"] == "top-level field + http path variable":
-            if md.get("x-goog-request-params") != f"{w}=things/t1":
+            if md.get("x-goog-request-params") != f"{w}={coll(w)}/t1":
                 ctx.fail("wire:routing-key", f"word {w!r} ({kind}): implicit routing header {md.get('x-goog-request-params')!r}, expected key {w!r}", pl)
         if c.get("header") and md.get("x-goog-request-params") != c["header"]:
             ctx.fail("wire:routing-key", f"word {w!r} ({kind}): explicit routing header {md.get('x-goog-request-params')!r}, expected {c['header']!r}", pl)
@@ -174,9 +179,9 @@ def check_safe(ctx, w, quick=False):
     kw_name = to_snake_case(cap(w) + "_") if (rpc_name and rpc_name.lower() in keyword.kwlist) else (to_snake_case(rpc_name) if rpc_name else None)
     calls = [
         {"tag": "top-level field + http path variable", "method": "get_thing", "mode": "request-instance", "py_request": T("GetThing"),
-         "request_b64": codec.encode_b64(f"{PKG}.GetThingRequest", {w: "things/t1", "other": "o"}), "expect": (f"{PKG}.GetThingRequest", {w: "things/t1", "other": "o"})},
+         "request_b64": codec.encode_b64(f"{PKG}.GetThingRequest", {w: coll(w) + "/t1", "other": "o"}), "expect": (f"{PKG}.GetThingRequest", {w: coll(w) + "/t1", "other": "o"})},
         {"tag": "flattened parameter", "method": "get_thing", "mode": "kwargs", "py_request": T("GetThing"),
-         "request_b64": codec.encode_b64(f"{PKG}.GetThingRequest", {w: "things/t2"}), "kwargs": [[a, a]], "expect": (f"{PKG}.GetThingRequest", {w: "things/t2"})},
+         "request_b64": codec.encode_b64(f"{PKG}.GetThingRequest", {w: coll(w) + "/t2"}), "kwargs": [[a, a]], "expect": (f"{PKG}.GetThingRequest", {w: coll(w) + "/t2"})},
         {"tag": "nested field + http body", "method": "create_thing", "mode": "request-instance", "py_request": T("CreateThing"),
          "request_b64": codec.encode_b64(f"{PKG}.CreateThingRequest", {"parent": "shelves/s", w: thing_val}), "expect": (f"{PKG}.CreateThingRequest", {"parent": "shelves/s", w: thing_val})},
         {"tag": "flattened message parameter", "method": "create_thing", "mode": "kwargs", "py_request": T("CreateThing"),
@@ -195,7 +200,7 @@ def check_safe(ctx, w, quick=False):
                       "path": f"/{PKG}.Library/{rpc_name}"})
     rest_calls = [
         {"tag": "REST path variable", "method": "get_thing", "mode": "request-instance", "py_request": T("GetThing"),
-         "request_b64": codec.encode_b64(f"{PKG}.GetThingRequest", {w: "things/t1", "other": "o"}), "script": [{"status": 200, "body": "{}"}]},
+         "request_b64": codec.encode_b64(f"{PKG}.GetThingRequest", {w: coll(w) + "/t1", "other": "o"}), "script": [{"status": 200, "body": "{}"}]},
         {"tag": "REST body", "method": "create_thing", "mode": "request-instance", "py_request": T("CreateThing"),
          "request_b64": codec.encode_b64(f"{PKG}.CreateThingRequest", {"parent": "shelves/s", w: thing_val}), "script": [{"status": 200, "body": "{}"}]},
     ]
@@ -238,7 +243,7 @@ def check_safe(ctx, w, quick=False):
             continue
         rec = r_["server"][0]
         if c["tag"] == "REST path variable":
-            if rec["path"] != "/v1/things/t1":
+            if rec["path"] != f"/v1/{coll(w)}/t1":
                 ctx.fail("wire:http-path", f"word {w!r}: REST path {rec['path']!r}", pl)
             if "other=o" not in rec["query"]:
                 ctx.fail("wire:http-query", f"word {w!r}: REST query {rec['query']!r}", pl)
@@ -319,10 +324,15 @@ def t2(ctx):
     for p, mo in zip(paths, pm):
         ctx.case(distinct_key=["path", p]); ctx.traces += 1
         dotted = ".".join(p)
-        uri = convert_uri_fieldnames("/v1/{%s=things/*}:verb" % dotted)
-        got_uri = re.search(r"\{([^=}]+)", uri).group(1).split(".")
-        if got_uri != mo["uri"]:
-            ctx.disagree("T2:c12.uri", f"convert_uri_fieldnames on {dotted!r}: {got_uri} vs model {mo['uri']}", {"path": p})
+        # the variable's own template and the text around it repeat the words: only the NAME span may change
+        tmpl = "/".join(x + "s/*" for x in p)
+        uri = convert_uri_fieldnames("/v1/%s/{%s=%s}/%s:verb" % (p[0], dotted, tmpl, p[-1]))
+        want_uri = "/v1/%s/{%s=%s}/%s:verb" % (p[0], ".".join(mo["uri"]), tmpl, p[-1])
+        if uri != want_uri:
+            ctx.disagree("T2:c12.uri", f"convert_uri_fieldnames on {dotted!r}: {uri!r} vs model {want_uri!r}", {"path": p})
+        bare = convert_uri_fieldnames("/v1/{%s}/x/{%s=*}" % (dotted, dotted))
+        if bare != "/v1/{%s}/x/{%s=*}" % (".".join(mo["uri"]), ".".join(mo["uri"])):
+            ctx.disagree("T2:c12.uri", f"convert_uri_fieldnames on bare {dotted!r}: {bare!r}", {"path": p})
         hd = wrappers.FieldHeader(dotted).disambiguated.split(".")
         if hd != mo["header"]:
             ctx.disagree("T2:c12.header", f"FieldHeader({dotted!r}).disambiguated: {hd} vs model {mo['header']}", {"path": p})
